@@ -355,6 +355,7 @@ struct Gen {
 					for(int i = 0; i < NSLOT; ++i)
 						if(i != o.a && M.at(D, i).alive && M.at(D, i).same_extents(M.at(D, o.a)) && M.at(D, i).arena != M.at(D, o.a).arena && rng.chance(2, 3)) o.b = i;
 				}
+				if(o.kind == O_ASSIGN_COPY && !T.static_arrays && D > 0 && M.at(D, o.b).count() > 0 && rng.chance(1, 8)) o.var = 1;  // source re-indexed to base 1 for the call
 				break;
 			}
 			case O_CTOR_VIEW: case O_CTOR_RANGE: case O_DECAY: case O_ASSIGN_VIEW: case O_ASSIGN_ITER: case O_ASSIGN_RANGE: case O_FROM: {
@@ -500,7 +501,7 @@ struct Gen {
 			}
 			case O_VASSIGN_CONV: case O_VASSIGN_RANGE: case O_VASSIGN_IL: case O_VFILL: case O_EASSIGN_IL: {
 				MView dv;
-				int const fv   = o.kind == O_VFILL ? rng.below(4) : 0;  // 0: member fill (1-D views); 1..3: element by element through the flat iterators
+				int const fv   = o.kind == O_VFILL ? rng.below(7) : 0;  // 0: member fill (1-D views); 1..6: element by element through the flat iterators
 				int const want = o.kind == O_VFILL && fv == 0 ? 1 : -1;
 				if(!find_view(D, o.a, want, nullptr, false, o.ca, dv) || dv.count() == 0) continue;
 				o.v   = rval();
